@@ -60,3 +60,10 @@ Proof.
       repeat rewrite <- app_assoc. reflexivity.
     + eexists. split; [reflexivity|]. left. exists [], []. now rewrite app_nil_r.
 Qed.
+
+Lemma debug_str_owner : forall o t, eff_hint o = None -> obj o = Some t -> infix t (debug_str o).
+Proof.
+  intros o t H Ho. unfold debug_str. rewrite H, Ho.
+  exists (s_open ++ s_nosuch), ([91%N] ++ repr_name (name o) ++ [93%N] ++ s_close).
+  repeat rewrite <- app_assoc. reflexivity.
+Qed.
